@@ -335,10 +335,12 @@ def check(pid, tier, only=None, jobs=None, verbose=False):
         log('  engine-B %s: %s' % (b['name'], b['status']))
     if inconclusive:
         log('  inconclusive (budget): ' + ', '.join(inconclusive[:12]) + (' ...' if len(inconclusive) > 12 else ''))
-    for n, rpath, crep in violations:
+    for n, rpath, crep in violations[:8]:
         why = '; '.join((crep.get('why') or [])[-2:]) if isinstance(crep.get('why'), list) else ''
         log('  violated obligation %s: %s %s' % (n, why, (crep.get('exception') or '')))
         log('VIOLATION property=%s replay=%s' % (pid, rpath))
+    if len(violations) > 8:
+        log('  ... and %d more violated obligations (see evidence/%s.json)' % (len(violations) - 8, pid))
     if violations:
         return 1
     if harness_errors:
